@@ -1,0 +1,64 @@
+// Copyright 2026 Juan Pablo Tosso and the OWASP Coraza contributors
+// SPDX-License-Identifier: Apache-2.0
+
+//go:build verif && !coraza.disabled_operators.rx
+
+package operators
+
+import "github.com/corazawaf/coraza/v3/experimental/plugins/plugintypes"
+
+// VerifRxInfo describes what newRX compiled for one @rx operator instance
+// (verification tooling only; read-only view of the unexported fields).
+type VerifRxInfo struct {
+	Binary       bool   // binaryregexp matcher: none of the prefilter machinery applies
+	MinLen       int    // minimum match length guard (0 = none)
+	HasPrefilter bool   // a literal / length prefilter function was built
+	ExactMatch   string // non-empty: the ^literal$ fast path is active
+	ExactMatchCI bool
+}
+
+// Stages of (*rx).Evaluate that can decide an input before the regexp engine runs.
+const (
+	VerifRxStageRegex     = 0 // nothing decided early: the regexp engine runs
+	VerifRxStageMinLen    = 1 // rejected by the minimum-length guard
+	VerifRxStagePrefilter = 2 // rejected by the prefilter function
+	VerifRxStageExact     = 3 // decided by the exact-match fast path
+)
+
+// VerifRxInspect returns the compile-time artifacts of an operator created by
+// the "rx" factory. ok is false when op is not an @rx operator.
+func VerifRxInspect(op plugintypes.Operator) (info VerifRxInfo, ok bool) {
+	switch o := op.(type) {
+	case *rx:
+		return VerifRxInfo{MinLen: o.minLen, HasPrefilter: o.prefilter != nil, ExactMatch: o.exactMatch, ExactMatchCI: o.exactMatchCI}, true
+	case *binaryRX:
+		return VerifRxInfo{Binary: true}, true
+	}
+	return VerifRxInfo{}, false
+}
+
+// VerifRxStage reports which early stage of (*rx).Evaluate decides value. It
+// evaluates the same guards in the same order as Evaluate and never runs the
+// regexp engine; it exists so that tooling can count prefilter rejections and
+// fast-path hits, not to decide anything.
+func VerifRxStage(op plugintypes.Operator, value string) int {
+	o, ok := op.(*rx)
+	if !ok {
+		return VerifRxStageRegex
+	}
+	if len(value) < o.minLen {
+		return VerifRxStageMinLen
+	}
+	if o.prefilter != nil && !o.prefilter(value) {
+		return VerifRxStagePrefilter
+	}
+	if o.exactMatch != "" {
+		for i := 0; i < len(value); i++ {
+			if value[i] == '\n' {
+				return VerifRxStageRegex
+			}
+		}
+		return VerifRxStageExact
+	}
+	return VerifRxStageRegex
+}
